@@ -1,5 +1,5 @@
 SPECIFICATION Spec
-CONSTANT MaxN = 4
+CONSTANT MaxN = 5
 INVARIANT Sound
 INVARIANT Consequences
 INVARIANT NoDeadEnd
